@@ -260,6 +260,10 @@ impl<'reg> Registry<'reg> {
     /// Dev mode doesn't apply for pre-compiled template because it's lifecycle
     /// is not managed by the registry.
     pub fn register_template(&mut self, name: &str, tpl: Template) {
+        // a template registered directly replaces any dev-mode source tracked
+        // under the same name; `register_template_file` re-adds its source
+        // after calling this
+        self.template_sources.remove(name);
         self.templates.insert(name.to_string(), tpl);
     }
 
